@@ -99,8 +99,9 @@ theorem C05.rewrite_shape (name : String) (idx : Nat) (b : Node) (b' : RNode) (h
   rw [h4, countReg_embed]; omega
 
 /-- (b) the rewrite gives up exactly when the body `refuses` the register: it contains a function literal,
-`x++`/`x--`, `x = …`/`x := …` (also as the variable of an inner loop), `++x`/`--x`, `m.x`, `del(x)`, or a
-macro literal with the parameter `x` (`refuses` is this list, as a recursive predicate on the tree) -/
+`x++`/`x--`, `x = …`/`x := …` (also as the variable of an inner loop), `++x`/`--x`, `m.x`, `del(x)`, a `quote(…)`,
+a direct call `eval(…)` (repo fix 9150a9b), or a macro literal with the parameter `x` (`refuses` is this list, as a
+recursive predicate on the tree) -/
 theorem C05.rewrite_refuses (name : String) (idx : Nat) (b : RNode) :
     modifyR name idx b = none ↔ refuses name idx b = true := by
   rw [modifyR_spec]
